@@ -18,9 +18,25 @@ Requests (one per line; matrices as `rows cols v11 v12 …`, exact rationals, no
         -> ok predCovarOfSolve | predCovarOfSolveNeg              (covariance from an observed solve)
   chol  n p  L[n×n] r[n×p]
         -> ok cholSolve                                           (or `singular`)
+ call structure (GENERATED `Gen.ExactCall`, translator g7_exact_call.py; replies are plain naturals):
+  mode  k_1 … k_m           (k = bit mask: 1 training, 2 hasInputs, 4 hasTargets, 8 debug, 16 priorMode, 32 inputsEqual,
+                             64 outputIsMVN)
+        -> ok g_1 s_1 … g_m s_m      g = code of GENERATED callMode, s = code of the specification callSpec
+                             (0 raiseNoTrainInputs 1 raiseMustTrain 2 raiseNotMVN 3 priorAtInputs 4 priorAtArgs
+                              5 posterior 6 posterior+warning)
+  cat   n s  r bt_1 … bt_r  q bi_1 … bi_q      (batch shapes in torch order)
+        -> ok T(generated) | T(specification)   with T = rank shape… (torch order) numel v_1 … v_numel: GENERATED catInputs and
+           the specification concatSpec on row-id tensors (train rows numbered 0…, test rows after them), flattened row-major; or `none none`
+           / `none some` / `some none` when torch.broadcast_shapes fails on one / both sides
+  mt    n s t               (t = 0: single-output)
+        -> ok numTrain rank testShape… | s·t generated flat joint indices of viewPredMean∘testMean (row-major (p, τ)) |
+           n·t generated flat label positions of flattenLabels on the (point, task) table
+  det   -> ok b_1 … b_10    GENERATED meanCacheDetached (ignore on/off, mask on/off, fill on/off), covarCacheDetached
+           on/off, solveOperandDetached on/off
 -/
 import GPVerif.Model.ExactGP
 import GPVerif.Gen.ExactAlgebra
+import GPVerif.Gen.ExactCall
 import GPVerif.Model.Proto
 open Proto ExactGP
 
@@ -89,6 +105,57 @@ def stepChol (n p : Nat) (ts : List String) : Option String := do
   | some x => some (reply [showD x])
   | none => some "singular"
 
+/-! ### call structure (generated) -/
+
+def natList (ts : List String) : List Nat := ts.filterMap String.toNat?
+
+def stepMode (ts : List String) : Option String :=
+  let out := (natList ts).map fun k =>
+    let c := ExactCall.cfgOfCode k
+    s!"{(Gen.ExactCall.callMode c).code} {(ExactCall.callSpec c).code}"
+  some ("ok " ++ " ".intercalate out)
+
+/-- row-id tensor: batch shape `bt` (torch order), `n` rows, values `off + flat position`. -/
+def rowIds (n : Nat) (bt : List Nat) (off : Nat) : Bcast.T Nat :=
+  let sh := n :: Bcast.ofTorch bt
+  ⟨sh, fun idx => off + Bcast.flat sh idx⟩
+
+def showT (t : Bcast.T Nat) : String :=
+  let sh := Bcast.toTorch t.shape
+  " ".intercalate ((toString sh.length :: sh.map toString) ++ [toString (Bcast.numel t.shape)] ++ t.toFlat.map toString)
+
+def stepCat (n s : Nat) (ts : List String) : Option String := do
+  let v := natList ts
+  let r ← v.head?
+  let bt := (v.drop 1).take r
+  let q ← (v.drop (1 + r)).head?
+  let bi := (v.drop (2 + r)).take q
+  let tr := rowIds n bt 0
+  let te := rowIds s bi (Bcast.numel tr.shape)
+  match Gen.ExactCall.catInputs tr te, ExactCall.concatSpec tr te with
+  | some g, some m => some ("ok " ++ showT g ++ " | " ++ showT m)
+  | none, none => some "none none"
+  | none, some _ => some "none some"
+  | some _, none => some "some none"
+
+def stepMt (n s t : Nat) : Option String :=
+  let (joint, train) := if t = 0 then ([n + s], [n]) else ([n + s, t], [n, t])
+  let m := if t = 0 then 1 else t
+  let mj : Bcast.T Nat := ⟨[(n + s) * m], fun idx => idx.headD 0⟩
+  let v := Gen.ExactCall.viewPredMean (Gen.ExactCall.testMean mj train) joint train
+  let tsh := Gen.ExactCall.testShape joint train
+  let y : Bcast.T Nat := ⟨Bcast.ofTorch train, Bcast.flat (Bcast.ofTorch train)⟩
+  let fl := Gen.ExactCall.flattenLabels y train
+  some ("ok " ++ " ".intercalate ([toString (Gen.ExactCall.numTrain train), toString tsh.length] ++ tsh.map toString)
+        ++ " | " ++ " ".intercalate (v.toFlat.map toString) ++ " | " ++ " ".intercalate (fl.toFlat.map toString))
+
+def stepDet : Option String :=
+  let bit (b : Bool) : String := if b then "1" else "0"
+  let pols := [Policy.ignore, Policy.mask, Policy.fill]
+  let ms := pols.flatMap fun p => [bit (Gen.ExactCall.meanCacheDetached p true), bit (Gen.ExactCall.meanCacheDetached p false)]
+  some ("ok " ++ " ".intercalate (ms ++ [bit (Gen.ExactCall.covarCacheDetached true), bit (Gen.ExactCall.covarCacheDetached false),
+    bit (Gen.ExactCall.solveOperandDetached true), bit (Gen.ExactCall.solveOperandDetached false)]))
+
 def step (line : String) : String :=
   let r : Option String :=
     match tokens line with
@@ -97,6 +164,10 @@ def step (line : String) : String :=
     | "given" :: n :: s :: ts => do stepGiven (← n.toNat?) (← s.toNat?) ts
     | "solve" :: n :: s :: ts => do stepSolve (← n.toNat?) (← s.toNat?) ts
     | "chol" :: n :: p :: ts => do stepChol (← n.toNat?) (← p.toNat?) ts
+    | "mode" :: ts => stepMode ts
+    | "cat" :: n :: s :: ts => do stepCat (← n.toNat?) (← s.toNat?) ts
+    | "mt" :: n :: s :: t :: _ => do stepMt (← n.toNat?) (← s.toNat?) (← t.toNat?)
+    | "det" :: _ => stepDet
     | _ => none
   r.getD "bad-request"
 
